@@ -81,4 +81,24 @@ fn main() {
         }
     }
     println!("sliders with a duration a hair below an integer: {}; shift-variant among them: {}", near, found);
+    negative_zero();
+}
+
+/// "-0" is a time too: total_cmp sorts -0.0 before +0.0, a shift maps both to k (relative of D8)
+fn negative_zero() {
+    let text = |a: &str, b: &str| {
+        format!("osu file format v14\n\n[General]\nMode: 0\n\n[HitObjects]\n10,10,{},1,0,0:0:0:0:\n20,20,{},1,0,0:0:0:0:\n", a, b)
+    };
+    let xs = |t: &str| -> Vec<(f32, f64)> {
+        decode(t)
+            .hit_objects
+            .iter()
+            .map(|h| match &h.kind {
+                HitObjectKind::Circle(c) => (c.pos.x, h.start_time),
+                _ => (-1.0, h.start_time),
+            })
+            .collect()
+    };
+    println!("NEGATIVE ZERO: objects `10,10,0` then `20,20,-0` come out as {:?}", xs(&text("0", "-0")));
+    println!("               shifted by 7 (`10,10,7` then `20,20,7`)        {:?}", xs(&text("7", "7")));
 }
